@@ -33,17 +33,20 @@ PROPS["C02"] = {
 
 PROPS["C04"] = {
     "kani": ["dec_tables", "dec_payload", "dec_matchers"],
-    "verus": ["numdec"],
+    "verus": ["numdec", "osccolor"],
     "technique": "Kani/CBMC full-domain harnesses on numeric tables and colour forms; Verus round-trip lemmas (decimal, UTF-8); payload decoders on templates with number_decode replaced by its contract",
     "level_text": "Proved: DecMode/DecModeStatus::from_usize invert `as usize` on every variant and reject everything else (all usize); sgr_color maps 5;n to the xterm-256 colour n and 2;r;g;b / 2:cs:r:g:b to "
                   "exactly (r,g,b) for every value (Kani, complete); number_decode(decimal(n)) == n for every usize and utf8_value(utf8_enc(c)) == c for every scalar value (Verus lemmas over the proved contracts). "
                   "Payload decoders return exactly the transmitted coordinates/modifiers/levels/ids for every numeric value on fixed templates (bounded stand-ins). "
+                  "Proved (Verus, unit osccolor): parse_color's parse_component maps an n-digit hex component (n = 1..4) to the most significant byte of the value scaled to 16 bits (4 digits: high byte, 3: v/16, 2: v, 1: v*17), "
+                  "rejects other lengths, never overflows; lemma_roundtrip: a channel c reported as c*257 in four digits, or as two digits, decodes back to c. "
                   "Tokenisation, tag ordering, the static key table and concatenation are NOT decided.",
     "level_note": "Assumed: merged DFA + tag ordering, basic_events_nfa key table, that core::fmt prints usize in decimal (digits() spec), OSC colour / termcap / paste decoders.",
     "assumptions": [
         "one NFA per family merged into one tagged DFA, tag ordering, the static xterm/fixterms key table and non-interference of concatenated sequences: assumed (C03/C15 not applicable)",
         "button/key names are compared with the library's own naming table, as the property says",
         "decimal rendering spec digits(n) stands for what a terminal transmits",
+        "unit osccolor: usize::from_str_radix(_, 16) and str::len are std calls behind external_body wrappers (an n-character string parses to a value below 16^n); the `rgb:` prefix / split('/') framing of parse_color is not under contract",
     ],
 }
 
@@ -52,11 +55,13 @@ PROPS["C05"] = {
     "verus": [],
     "technique": "Kani/CBMC full-domain harnesses on TTYEncoder::encode per command variant (panic freedom, literal sequences, SGR code selection); core::fmt rendering assumed",
     "level_text": "Proved (Kani, every parameter value and capability setting): encode never panics or overflows for CursorTo/CursorMove/Scroll/ScrollRegion/EraseChars/DecModeSet/DecModeGet/KeyboardLevel/Color query; "
-                  "parameterless commands emit exactly their ECMA-48/xterm bytes; a FaceModify that selects nothing representable emits nothing. Face / FaceModify without colours emit one well-formed SGR sequence selecting exactly the requested attributes "
+                  "parameterless commands emit exactly their ECMA-48/xterm bytes; a FaceModify that selects nothing representable emits nothing. "
+                  "Alt-screen keyboard-level bracketing (complete, kitty_level replaced by a recording stub): entering the alternate screen emits the switch and THEN sets the level, leaving resets the level to 0 and THEN switches - "
+                  "the main screen's own level is never touched; other modes and terminals without the kitty keyboard emit the switch only. Face / FaceModify without colours emit one well-formed SGR sequence selecting exactly the requested attributes "
                   "(0 first for Face; 1/22, 3/23, 5/25, 9/29, 4, 4:n, 24) on 20 fixed attribute sets (bounded stand-ins: the harness over all 6 x 32 sets does not finish in CBMC). Which decimal digits core::fmt prints for the numeric parameters, colour parameters (C20 covers the selection), Title/Termcap/Raw strings are NOT decided.",
     "level_note": "Assumed: core::fmt (write! templates and integer Display) - the sink in the harnesses records literal bytes and counts formatted writes; colours go through write! into Chunks and are outside CBMC's reach.",
     "assumptions": [
-        "core::fmt is intractable for CBMC (probe: > 7 min, > 10 GB): the pairing of each numeric template with its arguments and the decimal rendering are read from the source, not proved",
+        "core::fmt is intractable for CBMC (probes: > 7 min, > 10 GB symbolic; no verdict in 10 min with all-concrete arguments; no verdict in 15 min with Display::fmt of usize stubbed): the pairing of each numeric template with its arguments and the decimal rendering are read from the source, not proved",
         "Face/FaceModify with colours, Title, Termcap, Raw, Char, Image are not under contract",
         "oracle byte sequences are transcribed from ECMA-48 / xterm ctlseqs / VT510",
     ],
@@ -228,18 +233,23 @@ PROPS["C20"] = {
 
 PROPS["C09"] = {
     "kani": [],
-    "verus": ["celllayout", "putcell", "utf8stream"],
+    "verus": ["celllayout", "putcell", "utf8stream", "textlayout"],
     "technique": "Verus contracts on the single layout routine Cell::layout, on TerminalWriter::put_cell over the ghost window model of surfaces shared with C07 (frame condition), and on the streaming Utf8Decoder::decode against a byte-wise fold with chunk-independence lemmas; all extracted from the real code",
     "level_text": "Proved (Verus, every cell size, width, wrap mode, cursor and tracked size): Cell::layout keeps the writer invariant cursor.col <= max_width and size.width <= max_width, the tracked size is a "
                   "monotonically growing bounding box that covers every placed cell, a cell is placed at the cursor when it fits, else (wrapping only) at column 0 of the next row (r == place(..)), and nothing is placed exactly for "
                   "newline / CR / tab, zero-sized cells and overflow with wrapping disabled; newline, CR and tab move the cursor as specified; no arithmetic overflow for screen-sized numbers. "
                   "Proved (Verus, unit putcell; every window - plain, offset, strided, transposed - of every canvas, every writer state satisfying the invariant): TerminalWriter::put_cell changes no cell outside the window of the surface "
-                  "it was given (frame), writes a positioned cell exactly at place(..) with kind = the cell's kind and face = overlay, changing nothing else; returns false exactly when the position is not in the window; a cell without a "
+                  "it was given (frame), writes a positioned cell exactly at place(..) with the cell's kind (its face is the library's styling rule, left open), changing no other cell; returns false exactly when the position is not in the window; a cell without a "
                   "position never fails and never changes any cell's content (only faces of skipped cells); the fill loop indexes the buffer in range; 'out of space' is permanent (a put fails only once the cursor has left the window "
                   "downwards, the cursor row never decreases, and from such a state no put changes any cell), which is what makes dropping the rest of a buffer after a failed put independent of the split. "
+                  "Proved (Verus, unit putcell, any byte string incl. partial and invalid UTF-8): <TerminalWriter as io::Write>::write - the loop that joins the streaming decoder and put_char, extracted with CellWrite::put_char and Cell::new_char - "
+                  "changes no buffer element outside the window of the surface the writer was created on, keeps the writer invariant and the decoder well-formed for the next write, terminates (every produced character costs a byte) and reports at most buf.len() bytes. "
                   "Proved (Verus, unit utf8stream): Utf8Decoder::decode equals the byte-wise fold `run`; lemma_run_concat_more / lemma_run_concat_out: a chunk that produced nothing leaves a state from which the next chunk continues "
                   "exactly as if both had been one buffer, and what a chunk produced does not depend on the bytes after it - cuts inside a UTF-8 character do not change the characters delivered. "
-                  "The glyph fallback path of put_cell, Cell::size (unicode-width / glyph / image geometry), the io::Write loops that join decoder and put_char, the escape-sequence writer (TTYCellWriter) and "
+                  "Proved (Verus, unit textlayout, every cell sequence and width >= 1): over the functional model `lay` of Cell::layout - tied to the real body by the /*sync*/ postcondition - "
+                  "theorem_agree: folding the cells with any available width between the measured width W and the constraint width (in particular a surface exactly W wide) goes through the same states and puts every cell at the same position as measuring did; "
+                  "theorem_in_box: every cell that gets a position lies inside the measured size. Together with put_cell's contract: rendering into a surface of the size the layout reported places every positioned cell, none outside. "
+                  "The glyph fallback path of put_cell, Cell::size (unicode-width / glyph / image geometry), the generic Utf8CellWriter loop, the escape-sequence writer (TTYCellWriter) and "
                   "Text::layout/render agreement ('every printable cell exactly once in reading order') are NOT decided.",
     "level_note": "Cell::size is an uninterpreted function; Face/Image/Glyph/ViewContext/Utf8Decoder-in-writer are opaque stand-ins (N18); the glyph-fallback prelude of put_cell is cut off by precondition (N16); SurfaceMutView operations are used through the contracts proved in unit surface.",
     "assumptions": [
@@ -248,8 +258,12 @@ PROPS["C09"] = {
         "put_cell: SurfaceMutView::{shape,size,get_mut,data_mut} are specified by the contracts that unit surface proves for the Surface/SurfaceMut default methods (get_mut added there); the forwarding impls for SurfaceMutView are trusted",
         "derived PartialEq on Position (`cursor_start != self.cursor`) has no specification in Verus: both outcomes are covered",
         "utf8stream: UTF8DFA is an abstract DFA with the layering/length axiom; source is io::Cursor<&[u8]> by contract; utf8_decode is 'a function of the bytes' here (its own contract is proved in unit numdec)",
-        "TerminalWriter::write / Utf8CellWriter::write / TTYCellWriter::write loops, TerminalWritable, Text::{layout,render}: not under contract "
+        "write: characters are at most one row high (char_cell_small, stated about the uninterpreted Cell::size) and cursor.row + buf.len() stays below 2^24; the io::Cursor is the ByteCursor stand-in (N6); "
+        "that the cells written by two writes equal those of one write of the concatenation is NOT mechanised end to end (it follows from decode == run + the concat lemmas + permanence of 'out of space' by reading)",
+        "Utf8CellWriter::write / TTYCellWriter::write loops, TerminalWritable, Text::{layout,render}: not under contract "
         "(a Kani harness for put_cell was built and withdrawn: overwriting a Cell runs the drop glue of CellKind, whose discriminant lives in the niche of `char`; CBMC unrolls the recursive drop of rasterize::Scene without end)",
+        "textlayout: Text::layout / Text::render themselves (iterator for_each closures over a View trait object signature) are not extracted: that they ARE the folds `run` with ct.max.width resp. the surface width is by reading; "
+        "if a change breaks only the /*sync*/ clause the agreement theorems no longer speak about the code and the check answers undecided (exit 2)",
         "writer invariant cursor.col <= max_width, size.width <= max_width holds initially (TerminalWriter::new starts from origin and empty size)",
     ],
 }
